@@ -9,11 +9,12 @@ R="${EVAL_REPO:-/repo}"; V="${EVAL_VERIF:-/verif}"
 export VERIF_REPO="$R"
 if [ -n "$(git -C "$R" status --porcelain --untracked-files=no)" ]; then echo "refusing: $R has uncommitted changes"; exit 2; fi
 git -C "$R" apply "$PATCH" || { echo "patch does not apply to $R"; exit 2; }
-trap 'git -C "$R" checkout -q -- .' EXIT
+ERR=$(mktemp /tmp/try_mutant.XXXXXX.err)
+trap 'git -C "$R" checkout -q -- .; rm -f "$ERR"' EXIT
 for id in "$@"; do
-  out=$(cd "$V" && VERIF_SEED=${VERIF_SEED:-0} ./check "$id" ${TIER:-quick} 2>/tmp/try_mutant.err); rc=$?
+  out=$(cd "$V" && VERIF_SEED=${VERIF_SEED:-0} ./check "$id" ${TIER:-quick} 2>"$ERR"); rc=$?
   v=$(echo "$out" | grep -m1 "^VIOLATION")
   echo "$id exit=$rc $v"
-  if [ $rc -eq 1 ]; then grep -m1 -- "->" /tmp/try_mutant.err | cut -c1-300; fi
-  if [ $rc -eq 2 ]; then tail -3 /tmp/try_mutant.err; fi
+  if [ $rc -eq 1 ]; then grep -a -m1 -- "->" "$ERR" | cut -c1-300; fi
+  if [ $rc -eq 2 ]; then tail -3 "$ERR"; fi
 done
